@@ -52,6 +52,23 @@ def sizing_replay(ctx, thorough, rnd):
     recs, wall = tlc.cached_export_parts("Gen_Sizing", 8, env={"TIER": ctx.tier})
     if thorough and len(recs) > 150000:
         recs = rnd.sample(recs, 150000)
+    # beyond the bound TLC enumerates: seeded random sizing programs of 4-8 items (the step function judges any length)
+    def rand_items():
+        n = rnd.randint(4, 8)
+        items = []
+        for i in range(1, n + 1):
+            r = rnd.random()
+            if r < 0.45:
+                sz = rnd.choice([0, 1, 2, 3, 60, 100, 110, 115, 116, 117, 118, 119, 120, 121, 122, 123, 124, 125, 126, 127, 128, 129, 130])
+                items.append({"k": "fix", "sz": sz, "tgt": 0, "base": 0, "mx": sz})
+            elif r < 0.5:
+                items.append({"k": "fix", "sz": 3, "tgt": 0, "base": 0, "mx": 2})
+            else:
+                items.append({"k": "pcr", "sz": 0, "tgt": rnd.randint(1, n), "base": rnd.choice([2, 2, 3]), "mx": 0})
+        if not any(it["k"] == "pcr" for it in items):
+            items[0] = {"k": "pcr", "sz": 0, "tgt": n, "base": 2, "mx": 0}
+        return items
+    recs = recs + [{"prog": rand_items(), "final": []} for _ in range(40000 if thorough else 3000)]
     cases = [sizing_case(r["prog"]) for r in recs]
     traces, verd, extras = asmcheck.run_suite(ctx, "sizing-replay", cases, hooks=True)
     # hook events of the real loop judged by the AsmSizing step function; final sizes compared with the spec's
